@@ -246,6 +246,8 @@ fn generate(rng: &mut Rng, thorough: bool) -> Vec<Call> {
     let ps = positions(n);
     for p in &ps {
       add("sublist", vec![l.clone(), p.clone()], "sublist2");
+      // an explicit null for the optional length (positional and named)
+      add("sublist", vec![l.clone(), p.clone(), "null".into()], "sublist3null");
       add("remove", vec![l.clone(), p.clone()], "remove");
       add("insert before", vec![l.clone(), p.clone(), rand_item(rng, 1)], "insert before");
       for k in &ps {
@@ -301,6 +303,20 @@ fn generate(rng: &mut Rng, thorough: bool) -> Vec<Call> {
     add("union", vec!["[null]".into(), l.into()], "list-computed-null");
     add("count", vec![l.into()], "list-computed-null");
   }
+  // zeros of every spelling, among them zeros that were computed (and carry a sign): all are the one value 0
+  for l in ["[0, 1, 0.0]", "[0 * -1, 1]", "[-0, 0.00, 0 / -3, 2]", "[[0], [-1 * 0]]", "[{a: 0}, {a: 0 * -1}]", "[1, 2]"] {
+    for e in ["0", "0 * -1", "-1 * 0", "0 / -3", "0.0", "-0", "[0]", "[0 * -1]", "{a: -1 * 0}"] {
+      add("index of", vec![l.into(), e.into()], "list-computed-zero");
+      add("list contains", vec![l.into(), e.into()], "list-computed-zero");
+    }
+    add("distinct values", vec![l.into()], "list-computed-zero");
+    add("union", vec![l.into(), "[0 * -1, 0, -0.0]".into()], "list-computed-zero");
+    add("mode", vec![l.into()], "list-computed-zero");
+  }
+  add("mode", vec!["[0, 0 * -1, 1, 1]".into()], "list-computed-zero");
+  add("mode", vec!["[0 / -3, 0, 0.0, 1, 1]".into()], "list-computed-zero");
+  add("min", vec!["[0 * -1, 0]".into()], "list-computed-zero");
+  add("max", vec!["[0, 0 * -1]".into()], "list-computed-zero");
   add("flatten", vec!["[[1, [2, [3, [4, []]]]], 5, [[]], [[6]]]".into()], "list-unary");
   add("sort", vec!["[3, 1, 2, 1.0, 3.0]".into(), "function(x,y) x < y".into()], "sort");
   add("sort", vec!["[3, 1, 2]".into(), "function(x,y) x > y".into()], "sort");
